@@ -4,22 +4,22 @@ import os
 import signal
 
 
-def m_steps(results, psi, model, simulation, results_key='c18_steps'):
+def m_steps(results, psi, model, simulation, results_key='c18_steps', offset=0.0):
     """The loop counter at the time of the measurement: `sweeps` for sweep algorithms that iterate
-    (DMRG), the evolved time otherwise."""
+    (DMRG), the time evolved since `offset` (= the `start_time` option) otherwise."""
     eng = simulation.engine
     if hasattr(eng, 'evolved_time'):
-        results[results_key] = float(abs(eng.evolved_time))
+        results[results_key] = float(abs(eng.evolved_time - offset))
     else:
         results[results_key] = float(getattr(eng, 'sweeps', -1))
 
 
-def sigint_at(algorithm, at):
+def sigint_at(algorithm, at, offset=0.0):
     """Checkpoint listener: deliver a real SIGINT to this process when the loop counter equals `at`.
     `Simulation.handle_abort_signal` then makes `save_at_checkpoint` (same emit, lower priority) save and
     raise KeyboardInterrupt."""
     if hasattr(algorithm, 'evolved_time'):
-        cur = float(abs(algorithm.evolved_time))
+        cur = float(abs(algorithm.evolved_time - offset))
     else:
         cur = float(algorithm.sweeps)
     if abs(cur - at) < 1e-9:
